@@ -7,46 +7,51 @@
    there, see C09).
      encode / decode     model of the implementation (tied to the code by the correspondence run)
      spec_encode         the specification encoder
-     c10_class v t x     0, or the recorded difference class: 2 wide string, 3 XCDR1 optional member
-                         (the former classes 1 char8 >= 0x80 and 4 XCDR1 float128 reader were repaired
-                         in /repo: c6ffb24, 0b5427b) *)
+     c10_class v t x     0, or the recorded difference class: 2 wide string (the former classes 1 char8
+                         >= 0x80, 3 XCDR1 optional member origin and 4 XCDR1 float128 reader were repaired
+                         in /repo: c6ffb24, addc370, 0b5427b)
+     known_class v t x   the C09 classes (4 stage 3, 5 XCDR1 optional member that can be empty)
+     sup v t             XCDR1: no optional member id >= 2^14 (not serializable with the short header) *)
 From DustDDS Require Import Base.Machine Xcdr.XcdrBytes Xcdr.XcdrModel Xcdr.XcdrProps Xcdr.XcdrProofs
   Xcdr.SpecEncode Xcdr.SpecProofs.
 Open Scope Z_scope.
 
-(* outside the recorded classes the implementation's bytes ARE the specification encoder's
-   bytes, and the implementation reads them back to the same value *)
+(* outside the recorded classes (c10_class: wide strings; known_class: the C09 classes that
+   remain) the implementation's bytes ARE the specification encoder's bytes, and the
+   implementation reads them back to the same value (samples within the size limit of the
+   length fields) *)
 Theorem C10_bytes_equal_and_decodable_partial : forall (v : ver) (e : endian) (t : ty) (x : val),
-  is_aggr t = true -> wf_ty t = true -> stage2 t = true -> wt t x = true ->
-  c10_class v t x = 0%N ->
-  encode v e t x = Ok (spec_encode v e t x) /\ decode t (spec_encode v e t x) = Ok x.
+  is_aggr t = true -> wf_ty t = true -> sup v t = true -> wt t x = true ->
+  c10_class v t x = 0%N -> known_class v t x = 0%N ->
+  encode v e t x = Ok (spec_encode v e t x) /\
+  (blen (spec_encode v e t x) <= size_limit v t -> decode t (spec_encode v e t x) = Ok x).
 Proof. exact c10_outside_classes. Qed.
 
 (* the same on the structural subset `common` (no union, no mutable type, no wide string, no
-   XCDR1 optional member) without reference to the classes *)
+   XCDR1 optional member that can be empty or has an id >= 2^14) without reference to the classes *)
 Theorem C10_bytes_equal_on_common : forall (v : ver) (e : endian) (t : ty) (x : val),
   is_aggr t = true -> common v t = true -> wt t x = true ->
-  encode v e t x = Ok (spec_encode v e t x) /\ decode t (spec_encode v e t x) = Ok x.
-Proof. intros. split; [now apply code_eq_spec|now apply spec_decodable]. Qed.
+  encode v e t x = Ok (spec_encode v e t x) /\
+  (blen (spec_encode v e t x) <= size_limit v t -> decode t (spec_encode v e t x) = Ok x).
+Proof. intros. split; [now apply code_eq_spec|intros; now apply spec_decodable]. Qed.
 
-(* the inputs of the two repaired differences (char8 0xE9; XCDR1 float128) agree and come back *)
+(* the inputs of the repaired differences (char8 0xE9; XCDR1 float128; XCDR1 optional member
+   followed by an 8-byte member) agree and come back *)
 Theorem C10_repaired_inputs_agree :
   (let t := TStruct Final [(mk 0, TPrim PChar8)] in let x := VData [(0, VP KChar8 233)] in
    encode V2 LE t x = Ok (spec_encode V2 LE t x) /\ decode t (spec_encode V2 LE t x) = Ok x) /\
   (let t := TStruct Final [(mk 0, TPrim PU64); (mk 1, TPrim PF128)] in
    let x := VData [(0, VP KU64 7); (1, VP KF128 9)] in
-   encode V1 BE t x = Ok (spec_encode V1 BE t x) /\ decode t (spec_encode V1 BE t x) = Ok x).
+   encode V1 BE t x = Ok (spec_encode V1 BE t x) /\ decode t (spec_encode V1 BE t x) = Ok x) /\
+  (let t := TStruct Final [(mko 0, TPrim PU8); (mk 1, TPrim PU64)] in
+   let x := VData [(0, VP KU8 1); (1, VP KU64 2)] in
+   encode V1 LE t x = Ok (spec_encode V1 LE t x) /\ decode t (spec_encode V1 LE t x) = Ok x).
 Proof. exact regression_c10. Qed.
 
 (* the recorded differences are real differences between the two encoders *)
 Theorem C10_wstring_differs :
   differs V2 LE (TStruct Final [(mk 0, TWStr)]) (VData [(0, VStr [97])]).
 Proof. exact diff_wstring. Qed.
-
-Theorem C10_xcdr1_optional_origin_differs :
-  differs V1 LE (TStruct Final [(mko 0, TPrim PU8); (mk 1, TPrim PU64)])
-          (VData [(0, VP KU8 1); (1, VP KU64 2)]).
-Proof. exact diff_xcdr1_optional_origin. Qed.
 
 Example C10_nonvacuous :
   is_aggr ex_ty = true /\ wf_ty ex_ty = true /\ stage2 ex_ty = true /\ wt ex_ty ex_val = true /\
@@ -58,4 +63,3 @@ Print Assumptions C10_bytes_equal_and_decodable_partial.
 Print Assumptions C10_bytes_equal_on_common.
 Print Assumptions C10_wstring_differs.
 Print Assumptions C10_repaired_inputs_agree.
-Print Assumptions C10_xcdr1_optional_origin_differs.
